@@ -1,6 +1,6 @@
 HOOK_COMMITS = []  # filled by gen (git log of /repo commits whose subject starts with "verif hook")
 ENGINES = [
- {"name": "enum", "path": "h/enum", "serves_properties": ["C01", "C14"], "kind_free_text": "E1: small-scope exhaustive enumeration of inputs / operation sequences on the real functions against an independent reference model"},
+ {"name": "enum", "path": "h/enum", "serves_properties": ["C01", "C02", "C03", "C14"], "kind_free_text": "E1: small-scope exhaustive enumeration of inputs / operation sequences on the real functions against an independent reference model"},
 ]
 ALL = ["C%02d" % i for i in range(1, 21)]
 CLAIMS = [
@@ -12,6 +12,14 @@ CLAIMS = [
   "technique": "explicit-state small-scope enumeration: every token→owner assignment over the boundary token alphabet {0,1,2,2^32-3..2^32-1}; reported ranges vs the real lookup for every boundary key",
   "text": "Exhaustive within the bound: all assignments of the 6 alphabet tokens to up to 3-4 instances in 8 zone layouts (RF = #zones = 1..3) and to 1..3 partitions (<=3 tokens per owner, token-less owners included); for every owner and each of 15 boundary keys IncludesKey(ranges) must equal membership in the real Get / ActivePartitionForKey answer; ranges must be sorted, paired, disjoint and tile each zone / the partition ring.",
   "note": "Bound: token alphabet of 6 values, <=3 tokens per owner; all instances ACTIVE and healthy, all partitions active (as the property states); random large rings not run (different technique)."},
+ {"id": "C02", "engine": "enum", "design_ref": "DESIGN.md §4 C02",
+  "technique": "explicit-state small-scope enumeration of rings; for each, ALL minimal acknowledging write subsets × ALL minimal answering read subsets (instances or whole zones) from the real lookups must intersect",
+  "text": "Exhaustive within the bound: rings of 1..5 (thorough 6) single-token instances, every vector of 5 health classes, every zone assignment up to renaming (<=5 zones, so zones <,=,> RF), RF 1..4 (5), zone-awareness on/off, every start position. The write set and MaxErrors come from the real Get(key,Write), the read set and MaxErrors/MaxUnavailableZones from the real GetReplicationSetForOperation(Read); every pair of minimal successful subsets is enumerated.",
+  "note": "Success criteria of the executors (len-MaxErrors acks; len-MaxErrors results or all instances of zones-MaxUnavailableZones zones) are taken from C10/C11, where they are checked against the real DoBatch / DoUntilQuorum. One token per instance (token placement only selects the write set, all start positions are enumerated)."},
+ {"id": "C03", "engine": "enum", "design_ref": "DESIGN.md §4 C03",
+  "technique": "explicit-state small-scope enumeration: all pairs, triples and 4-step delivery histories (orders, regroupings, duplicates, forwarded deltas) over a descriptor universe, real Merge vs last-writer-wins reference",
+  "text": "Exhaustive within the bound: instance ring — all triples over 49 (thorough 343) descriptors built from 2 content tables (each (id,timestamp) one content; unsorted/duplicated/empty token lists; LEFT tombstones carrying tokens), and all 4-sequences (start state + 3 updates, 4 delivery forms); partition ring — all triples over 65 (325) descriptors with independent state and lock registers and owner tombstones, all pairs over 845 (4225). Checked on the real Merge(other,false): idempotence, commutativity, associativity, delta sufficiency (also into A⊔X), nil change ⇒ unchanged, normal form, newer timestamp wins, removal wins ties.",
+  "note": "Proviso of the property enforced by construction (one content per (entry,timestamp), disjoint tokens). Random larger descriptors are not run. Merge(…, localCAS=true) is deliberately non-commutative and is exercised in C04/C05/C06 instead."},
 ]
 NOT_APPLICABLE = [{"property_id": p, "reason": "check not built yet in this session (planned, see DESIGN.md §4); not a limit of the technique"} for p in ALL if p not in [c["id"] for c in CLAIMS]]
 import subprocess
